@@ -111,6 +111,10 @@ service("ParamService", [
     ep("pathMixed", "GET", "/p/mixed/{fooBar}/lit/{type}/end",
        [arg("fooBar", STRING, "path"), arg("type", INTEGER, "path")]),
     ep("pathOne", "GET", "/p/one/{only}", [arg("only", STRING, "path")]),
+    # arguments declared in another order than the template binds them
+    ep("pathSwapped", "GET", "/p/swapped/{first}/{second}", [arg("second", STRING, "path"), arg("first", STRING, "path")]),
+    ep("pathSwappedMixed", "GET", "/p/mixed2/{name}/items/{flag}/{id}",
+       [arg("id", INTEGER, "path"), arg("q", opt(STRING), "query"), arg("flag", BOOLEAN, "path"), arg("name", STRING, "path")]),
     ep("queryPrims", "GET", "/q/prims", [arg(n, t, "query", pid=n + "-id") for n, t in PLAIN]),
     ep("queryOpt", "GET", "/q/opt", [arg(n, opt(t), "query", pid=n) for n, t in PLAIN]
        + [arg("oa", ref("OptIntAlias"), "query"), arg("oaa", ref("OptAliasAlias"), "query"),
